@@ -286,3 +286,139 @@ Proof.
   split; [vm_compute; reflexivity|]. split; [vm_compute; reflexivity|].
   vm_compute. split; reflexivity.
 Qed.
+
+(* ---- 7. the observation oracle (Spec/SessionObs.v sess_spec_accepts, the SM verdict of the C17
+   check) accepts the model's own behaviour; hence agreement of Go with the model on a case
+   (sess_model_agrees, the MM verdict) implies acceptance of what Go did. Proofs/SessionOracle.v.
+   Events of a case: statements (CREATE DATABASE / USE / SHOW DATABASES / DDL / DML), SvTick,
+   SvRestart clean, and the read-backs ShRead of tables of the selected database.
+   ONE hypothesis, a boolean evaluated along the model's run (SessionOracle.sess_oracle_hyps): it
+   constrains only DDL / DML statements issued while a database is selected, through
+   SessionOracle.stmt_hyp3 on the selected cache:
+     (a) RefineMain.stmt_ok: literals are Go values (needed: sess_oracle_needs_stmt_ok);
+     (b) the data file stays below 2^63 bytes (not exhibitable by computation; the refinement needs it);
+     (c) OracleSound.stmt_shape: no INSERT without rows, no UPDATE / DELETE on a catalog table
+         (needed: sess_oracle_needs_stmt_shape);
+     (d) OracleSound.strict_stmt: CREATE TABLE does not name a catalog table and its catalog rows can
+         be stored - the oracle is strict about refusals (needed: sess_oracle_needs_strict_stmt).
+   C02's (H2) (stmt_moves_okb, hypothesis (iv) of C17_isolation_all_histories) is NOT assumed: it is
+   derived along the run from Rep + MovesFromRep.SelfOk; C17_oracle_hyps_imply_isolation_hyps shows
+   the hypotheses of the isolation theorem follow. No hypothesis on database names: that a refused
+   CREATE DATABASE / USE of an illegal name never names an existing database is an invariant.
+   Two former laxities of the oracle (an error answer to SHOW DATABASES, a read-back not compared
+   with the names asked for) are repaired in sess_spec_ok; the theorems below are about the
+   tightened oracle (SessionOracle.sess_oracle_rejects_show_error, sess_oracle_rejects_read_names). *)
+From Mkdb Require Import Proofs.OracleSound Proofs.SessionOracle.
+
+Theorem C17_oracle_accepts_model : forall evs,
+  sess_oracle_hyps init_sess evs = true ->
+  sess_spec_accepts (evs, run_sh init_sess evs) = true.
+Proof. exact model_passes_sess_oracle. Qed.
+Print Assumptions C17_oracle_accepts_model.
+
+Theorem C17_agreement_implies_acceptance : forall c,
+  sess_oracle_hyps init_sess (fst c) = true ->
+  sess_model_agrees c = true -> sess_spec_accepts c = true.
+Proof. exact sess_agreement_implies_acceptance. Qed.
+Print Assumptions C17_agreement_implies_acceptance.
+
+Theorem C17_oracle_hyps_imply_isolation_hyps : forall evs,
+  sess_oracle_hyps init_sess evs = true -> sess_hyps2 init_sess (sh_events evs) = true.
+Proof. exact oracle_hyps_hyps2. Qed.
+Print Assumptions C17_oracle_hyps_imply_isolation_hyps.
+
+(* non-vacuity: two databases; read-backs with and without a selected database (of a user table, a
+   catalog table and a table that does not exist); CREATE DATABASE of an existing, an empty and two
+   illegal names; failed USEs (unknown, illegal) with and without a selected database; statements
+   refused by engine and specification alike (INT range, duplicate table, unknown table, 400-byte
+   row limit in a multi-row UPDATE); USE switches, a re-USE, a tick, SHOW DATABASES, an unclean
+   restart while the UPDATE is only in the log, a clean restart *)
+Definition shevs_demo : list shev :=
+  [ShRead ["t"];
+   ShEv (SvStmt (SInsert "t" [] [[VInt 1]]));
+   ShEv (SvStmt (SCreateDatabase "Shop")); ShEv (SvStmt (SCreateDatabase "hr"));
+   ShEv (SvStmt (SCreateDatabase "SHOP")); ShEv (SvStmt (SCreateDatabase ""));
+   ShEv (SvStmt (SCreateDatabase "a/b")); ShEv (SvStmt (SCreateDatabase ".."));
+   ShEv (SvStmt (SUse "nosuch")); ShEv (SvStmt (SUse "../hr"));
+   ShEv (SvStmt (SUse "shop"));
+   ShEv (SvStmt (SCreateTable "t" [mkColDef "a" STNumeric; mkColDef "b" (STVarchar 400); mkColDef "c" (STVarchar 400)]));
+   ShEv (SvStmt (SInsert "t" [] [[VInt 1; VStr "x"; VStr "y"]; [VInt 2; VNull; VStr (rep_x 300)]]));
+   ShRead ["t"; "sys_schema"; "nosuch"];
+   ShEv (SvStmt (SInsert "t" [] [[VInt 3; VStr "p"; VStr "q"]; [VInt 2147483648; VStr "p"; VStr "q"]]));
+   ShEv (SvStmt (SCreateTable "t" [mkColDef "z" STBigInt]));
+   ShEv (SvStmt (SInsert "nosuch" [] [[VInt 1]]));
+   ShEv (SvStmt (SUpdate "t" [("b", XLit (VStr (rep_x 200)))] None));
+   ShRead ["t"];
+   ShEv (SvStmt (SUse "hr"));
+   ShEv (SvStmt (SCreateTable "t" [mkColDef "k" STBigInt]));
+   ShEv (SvStmt (SInsert "t" [] [[VInt 10]]));
+   ShRead ["t"];
+   ShEv (SvStmt (SUse "nosuch")); ShEv (SvStmt (SUse "a\b"));
+   ShEv (SvStmt (SInsert "t" [] [[VInt 11]]));
+   ShEv (SvStmt (SUse "HR"));
+   ShEv SvTick;
+   ShEv (SvStmt (SInsert "t" [] [[VInt 12]]));
+   ShEv (SvStmt (SUse "shop"));
+   ShEv (SvStmt (SUpdate "t" [("b", XLit (VStr "y"))] (Some (EPred (XCol (mkCol "" "a")) CEq (XLit (VInt 2))))));
+   ShEv (SvStmt SShowDatabase);
+   ShRead ["t"];
+   ShEv (SvRestart false);
+   ShRead ["t"];
+   ShEv (SvStmt (SDelete "t" None));
+   ShEv (SvStmt (SUse "shop"));
+   ShRead ["t"];
+   ShEv (SvStmt (SInsert "t" [] [[VInt 3; VStr "z"; VNull]]));
+   ShEv (SvRestart true);
+   ShEv (SvStmt (SUse "hr"));
+   ShEv (SvStmt (SDelete "t" (Some (EPred (XCol (mkCol "" "k")) CEq (XLit (VInt 11))))));
+   ShRead ["t"];
+   ShEv (SvStmt (SUse "shop"));
+   ShRead ["t"]].
+
+Definition sh_brief (o : shobs) : string * list (list value) :=
+  match o with
+  | ShOut SOOk => ("ok", [])
+  | ShOut (SOErr SEDBExists) => ("db exists", [])
+  | ShOut (SOErr SEDBNotExist) => ("no such db", [])
+  | ShOut (SOErr SENoDB) => ("no db selected", [])
+  | ShOut (SOErr (SEStmt _)) => ("refused", [])
+  | ShOut SOPanic => ("panic", [])
+  | ShOut (SOShow l) => ("show", [map VStr l])
+  | ShDone b => (if b then "done" else "failed", [])
+  | ShTables (("t", TRows _ rows) :: _) => ("t", map snd rows)
+  | ShTables _ => ("tables", [])
+  | ShNoDB => ("read: no db", [])
+  | ShDead => ("dead", [])
+  end.
+
+Example C17_oracle_demo :
+  sess_oracle_hyps init_sess shevs_demo = true /\
+  sess_hyps2 init_sess (sh_events shevs_demo) = true /\
+  sess_model_agrees (shevs_demo, run_sh init_sess shevs_demo) = true /\
+  sess_spec_accepts (shevs_demo, run_sh init_sess shevs_demo) = true /\
+  map sh_brief (run_sh init_sess shevs_demo) =
+    [("read: no db", []); ("no db selected", []); ("ok", []); ("ok", []); ("db exists", []); ("refused", []);
+     ("refused", []); ("refused", []); ("no such db", []); ("refused", []); ("ok", []); ("ok", []); ("ok", []);
+     ("t", [[VInt 1; VStr "x"; VStr "y"]; [VInt 2; VNull; VStr (rep_x 300)]]);
+     ("refused", []); ("refused", []); ("refused", []); ("refused", []);
+     ("t", [[VInt 1; VStr "x"; VStr "y"]; [VInt 2; VNull; VStr (rep_x 300)]]);
+     ("ok", []); ("ok", []); ("ok", []); ("t", [[VInt 10]]);
+     ("no such db", []); ("refused", []); ("ok", []); ("ok", []); ("done", []); ("ok", []); ("ok", []); ("ok", []);
+     ("show", [[VStr "hr"; VStr "shop"]]);
+     ("t", [[VInt 1; VStr "x"; VStr "y"]; [VInt 2; VStr "y"; VStr (rep_x 300)]]);
+     ("done", []); ("read: no db", []); ("no db selected", []); ("ok", []);
+     ("t", [[VInt 1; VStr "x"; VStr "y"]; [VInt 2; VStr "y"; VStr (rep_x 300)]]);
+     ("ok", []); ("done", []); ("ok", []); ("ok", []);
+     ("t", [[VInt 10]; [VInt 12]]);
+     ("ok", []);
+     ("t", [[VInt 1; VStr "x"; VStr "y"]; [VInt 2; VStr "y"; VStr (rep_x 300)]; [VInt 3; VStr "z"; VNull]])].
+Proof. vm_compute. repeat split; reflexivity. Qed.
+
+(* the oracle is not vacuous on this case: it rejects the same events when the row updated just
+   before the unclean restart reads back un-updated afterwards (a lost log record), and when the
+   table of "hr" shows up in "shop" *)
+Definition tamper (i : nat) (o : shobs) (l : list shobs) : list shobs := firstn i l ++ o :: skipn (S i) l.
+Example C17_oracle_demo_rejects :
+  sess_spec_accepts (shevs_demo, tamper 37 (nth 18 (run_sh init_sess shevs_demo) ShDead) (run_sh init_sess shevs_demo)) = false /\
+  sess_spec_accepts (shevs_demo, tamper 37 (nth 22 (run_sh init_sess shevs_demo) ShDead) (run_sh init_sess shevs_demo)) = false.
+Proof. vm_compute. split; reflexivity. Qed.
